@@ -15,12 +15,18 @@ fixed and variable Data, a repeated Int, an Optional).  Every tree is rendered t
 Value AND type must agree (True vs 1 matters), or both must raise the same exception type.
 
 Part 1   random trees through the compiled callable (all operators, both operand orders, nesting).
+         Each callable is compiled once and called as a HISTORY (inputs on which the expression raises
+         first, valid inputs after, the first input again): a compiled callable must be stateless.
+         SIBLING trees (one constant changed, hash-equal where possible) are compiled over the same field
+         objects in the same process and compared with their own eager value: two different expressions
+         must never be confused with one another.
 Part 1b  bare fields as conditions (truth / length path of normalize_raw_condition_into_a_callable).
 Part 2   integer-valued trees placed as `Data(expr)`, `.repeated(expr)`, `.when(expr)` and
          `.repeated(2, when=expr)` in freshly defined classes, observed through Packet.unpack.
 """
 import hashlib
 import os
+import sys
 
 from ..common import rng_for
 
@@ -34,18 +40,28 @@ REQUIRED = (
     "p2_size_len_checked", "p2_size_negative_packeterror", "p2_count_checked",
     "p2_when_present", "p2_when_absent", "p2_expr_exception_as_packeterror",
     "p2_field_condition_checked",
+    # sibling pass: expressions differing in one (hash-equal) constant, same field objects, same process
+    "p1_sibling_pairs_compared", "p1_sibling_hash_equal_pairs_compared", "p1_sibling_hash_equal_pairs_discriminating",
+    "p2_sibling_pairs_compared", "p2_sibling_hash_equal_pairs_compared", "p2_sibling_hash_equal_pairs_discriminating",
+    # history pass: the same compiled callable / class evaluated again after an evaluation that raised
+    "p1_evaluations_after_raise", "p1_value_evaluations_after_raise", "p2_valid_parse_after_failing_parse",
 )
 RULE = {
     "quick": "Part 1: 30000 seeded random expression trees, nesting depth 1..4, over 11 fields of a packet class "
-             "(3 code-generation option sets), 2 random inputs each: every binary operator of "
+             "(3 code-generation option sets), each compiled ONCE and called as a history on 3 random inputs ordered "
+             "raising-inputs-first, then valid ones, then the first input again; for 30% of the trees 1-2 sibling trees "
+             "(exactly one constant changed, hash-equal where possible: -1/-2, c +- 2^61-1, int(hash(float))) are compiled "
+             "right after over the same field objects and played on the same history: every binary operator of "
              "deferred.BinaryOperationsByCategory with operand shapes field/const, const/field, field/field, "
              "expr/expr, unary - ~ truth len, index, constant slices, chooses (list, tuple, dict, positional, keyword), "
              "if_true_then_else (list, tuple, positional); ~6% deliberately ill-typed operands so exceptions are compared. "
              "Part 1b: every field as a bare condition. Part 2: 300 integer-valued trees x 4 placements "
-             "(Data size, repeat count, when, repeated-when) = 1200 fresh classes x 6 inputs, plus bare-field placements. "
+             "(Data size, repeat count, when, repeated-when) = 1200 fresh classes x 6 inputs (failing parses first, then valid, "
+             "then the first again), half of the classes carrying a sibling expression as a second field y after x; "
+             "plus bare-field placements. "
              "A case is one tree (non-trivial: has at least one operator node); distinct = distinct expression sources.",
-    "thorough": "As quick with ~1M trees (62500 per shard x 16), depth 1..6, 2 inputs each; Part 2: 350 trees x 4 placements "
-                "per shard (22400 classes) x 6 inputs.",
+    "thorough": "As quick with ~1M trees (62500 per shard x 16), depth 1..6, histories over 3 inputs, siblings for 30%; "
+                "Part 2: 350 trees x 4 placements per shard (22400 classes) x 6 inputs, siblings in half of them.",
 }
 ASSUMPTIONS = [
     "eager reference = strict left-to-right evaluation: selector first, then every option of chooses / "
@@ -60,6 +76,8 @@ ASSUMPTIONS = [
     "values are judged through the explicit .__nonzero__() / .__len__() nodes inside trees",
     "Part 2: a Data size / count that is not an int, or larger than the bytes supplied, is not judged beyond "
     "'no success with a wrong length'; negative size must be a PacketError; negative count gives an empty list",
+    "Part 2 sibling field y: which of x / y failed is read from the innermost entry of PacketError.fields_stack; y is "
+    "judged only when x parsed (or is unjudged) on that input",
     "fields with a descriptor (.describe) are not used as operands: compile_expr reads field.field_name which is "
     "the hidden _described_<name> slot, the property does not say which of the two values is 'the parsed value'",
     "if_true_then_else is exercised with exactly two alternatives (list, tuple or positional); dict/keyword forms "
@@ -632,6 +650,110 @@ def show(outcome):
     return "%s: %s" % (type(outcome[1]).__name__, r)
 
 
+HASH_M = sys.hash_info.modulus
+
+
+def hash_equal_other(c):
+    """A number of a different value whose Python hash equals hash(c) (-1/-2, c +- hash modulus,
+    int(hash(float)))."""
+    if isinstance(c, bool):
+        cand = int(c) + HASH_M
+    elif isinstance(c, int):
+        cand = -2 if c == -1 else (-1 if c == -2 else (c + HASH_M if c >= 0 else c - HASH_M))
+    elif isinstance(c, float):
+        h = hash(c)
+        cand = h if h != c else (h + HASH_M if h >= 0 else h - HASH_M)
+    else:
+        return None
+    return cand if (hash(cand) == hash(c) and cand != c) else None
+
+
+def sibling_value(rng, c):
+    """(a different constant of the same family, hash-equal?)"""
+    if isinstance(c, (bool, int, float)):
+        new = None
+        if rng.random() < 0.8:
+            new = hash_equal_other(c)
+        if new is None:
+            if isinstance(c, bool):
+                new = not c
+            elif isinstance(c, float):
+                new = c + 1.0
+            else:
+                new = c + rng.choice((1, 2, 3))
+        return new, hash(new) == hash(c)
+    if isinstance(c, bytes):
+        return rng.choice([b for b in BYTES_CONSTS if b != c]), False
+    return list(rng.choice([x for x in LIST_CONSTS if x != c])), False
+
+
+def list_consts(n, out):
+    t = n[0]
+    if t == "k":
+        out.append(n[1])
+    elif t == "u":
+        list_consts(n[2], out)
+    elif t == "b":
+        list_consts(n[2], out)
+        list_consts(n[3], out)
+    elif t == "i":
+        list_consts(n[1], out)
+        list_consts(n[2], out)
+    elif t == "s":
+        list_consts(n[1], out)
+    elif t == "c":
+        list_consts(n[2], out)
+        for o in n[3]:
+            list_consts(o[1] if n[1] in ("dict", "kw") else o, out)
+    elif t == "t":
+        list_consts(n[2], out)
+        list_consts(n[3], out)
+        list_consts(n[4], out)
+    return out
+
+
+def map_const(n, target, value, ctr):
+    """Copy of n with the target-th constant (pre-order, as list_consts) replaced by value."""
+    t = n[0]
+    if t == "k":
+        i = ctr[0]
+        ctr[0] += 1
+        return ("k", value) if i == target else n
+    if t == "f":
+        return n
+    m = lambda x: map_const(x, target, value, ctr)
+    if t == "u":
+        return ("u", n[1], m(n[2]))
+    if t == "b":
+        l = m(n[2])
+        return ("b", n[1], l, m(n[3]))
+    if t == "i":
+        x = m(n[1])
+        return ("i", x, m(n[2]))
+    if t == "s":
+        return ("s", m(n[1]), n[2], n[3], n[4])
+    if t == "c":
+        sel = m(n[2])
+        if n[1] in ("dict", "kw"):
+            return ("c", n[1], sel, [(k, m(o)) for k, o in n[3]])
+        return ("c", n[1], sel, [m(o) for o in n[3]])
+    if t == "t":
+        c = m(n[2])
+        x = m(n[3])
+        return ("t", n[1], c, x, m(n[4]))
+    raise AssertionError(t)
+
+
+def make_sibling(rng, tree):
+    """(sibling tree, hash-equal?, old constant, new constant) or None when the tree has no constant."""
+    consts = list_consts(tree, [])
+    if not consts:
+        return None
+    idx = rng.randrange(len(consts))
+    new, heq = sibling_value(rng, consts[idx])
+    return map_const(tree, idx, new, [0]), heq, consts[idx], new
+
+
 def features(n, acc):
     """Collect coverage facts of a tree into acc (a dict of sets/counters)."""
     t = n[0]
@@ -698,7 +820,7 @@ def key_of(text):
 # ------------------------------------------------------------------------------------------
 # Part 1
 # ------------------------------------------------------------------------------------------
-def part1(run, rng, classes, ntrees, maxdepth, ninputs):
+def part1(run, rng, classes, ntrees, maxdepth, ninputs, sibling_share):
     import bisturi.deferred as bd
     import bisturi.structural_fields as bs
     from bisturi.field import Field
@@ -720,6 +842,107 @@ def part1(run, rng, classes, ntrees, maxdepth, ninputs):
     samples = 0
     depth_weights = list(range(1, maxdepth + 1))
 
+    def build_and_compile(tree, dsrc, env, cn, compiler, w):
+        try:
+            built = eval(compile(dsrc, "<c09-expr>", "eval"), dict(env))
+        except Exception as e:
+            run.case(key=key_of(dsrc))
+            run.violation("an expression over fields with supported operators was rejected when written "
+                          "(%s: %s)" % (type(e).__name__, str(e)[:120]), w)
+            return None
+        if not isinstance(built, expr_types + (Field,)):
+            run.count("harness_built_object_not_deferred")
+            run.inconclusive_because("generator-produced-non-deferred-expression")
+            return None
+        try:
+            return compiler(built)
+        except Exception as e:
+            run.case(key=key_of(dsrc))
+            run.violation("%s raised %s on a well-formed expression tree" % (cn, type(e).__name__),
+                          dict(w, error=str(e)[:200]))
+            return None
+
+    def eager_history(tree, psrc, cands, crosscheck):
+        """[(cand, eager outcome)] for the inputs the guard lets through."""
+        out = []
+        pcode = compile(psrc, "<c09-py>", "eval") if crosscheck else None
+        seen = set()
+        for c in cands:
+            if id(c) in seen:       # a repeated input of the history
+                prev = [h for h in out if h[0] is c]
+                if prev:
+                    out.append(prev[0])
+                continue
+            seen.add(id(c))
+            try:
+                want = eager(tree, c[1])
+            except Skip as sk:
+                run.count("guard_skipped")
+                run.count("guard_skipped_" + str(sk))
+                continue
+            if crosscheck:
+                want2 = eager_from_source(pcode, c[1])
+                if not same_outcome(want, want2):
+                    run.count("harness_oracle_self_disagreement")
+                    run.inconclusive_because("oracle-walk-vs-python-source-disagree: %s" % psrc[:150])
+                    continue
+            out.append((c, want))
+        return out
+
+    def play_history(f, cn, hist, w, primary, sample):
+        """Call the SAME compiled callable on every input of the history, in order, and compare each
+        call with the eager outcome. Returns (evaluations, gave a value, no violation)."""
+        evaluated = 0
+        gave_value = False
+        raised_before = False
+        before = []
+        for j, (c, want) in enumerate(hist):
+            raw, parsed, pkt = c
+            try:
+                if j % 2:
+                    got = ("val", f(pkt=pkt, raw=raw, offset=0, root=pkt))
+                else:
+                    got = ("val", f(pkt=pkt))
+            except Exception as e:
+                got = ("exc", type(e))
+            evaluated += 1
+            if raised_before:
+                run.count("p1_evaluations_after_raise")
+                if want[0] == "val":
+                    run.count("p1_value_evaluations_after_raise")
+            if want[0] == "val":
+                gave_value = True
+                if primary:
+                    run.count("p1_values_compared")
+                    tn = type(want[1]).__name__
+                    type_seen[tn] = type_seen.get(tn, 0) + 1
+                else:
+                    run.count("p1_sibling_values_compared")
+            else:
+                if primary:
+                    run.count("p1_exceptions_compared")
+                    en = want[1].__name__
+                    exc_seen[en] = exc_seen.get(en, 0) + 1
+                else:
+                    run.count("p1_sibling_exceptions_compared")
+            if not same_outcome(want, got):
+                what = ("compiled expression and eager Python evaluation disagree (value/type)"
+                        if want[0] == got[0] == "val" else
+                        "compiled expression and eager Python evaluation disagree (exception behaviour)")
+                if raised_before and got[0] == "exc" and want[0] == "val":
+                    what += " after an earlier evaluation of the same callable raised"
+                run.violation(what, dict(w, raw=raw, fields=parsed, compiled_with=cn,
+                                         evaluated_before=list(before),
+                                         expected=show(want), got=show(got)))
+                return evaluated, gave_value, False
+            if sample and sample[0] and j == 0:
+                run.sample({"part": "1", "expression": sample[1], "eager_python": sample[2], "raw": raw,
+                            "fields": parsed, "result": show(got)})
+            if want[0] == "exc":
+                raised_before = True
+            before.append(raw)
+        return evaluated, gave_value, True
+
     for i in range(ntrees):
         if run.counters["violations"] > 20:
             break
@@ -737,32 +960,14 @@ def part1(run, rng, classes, ntrees, maxdepth, ninputs):
                   "eager_python": psrc, "option_set": cname}
 
         # build: Python dispatches to the methods installed by bisturi.deferred
-        try:
-            built = eval(compile(dsrc, "<c09-expr>", "eval"), dict(env))
-        except Exception as e:
-            run.case(key=key_of(dsrc))
-            run.violation("an expression over fields with supported operators was rejected when written "
-                          "(%s: %s)" % (type(e).__name__, str(e)[:120]), base_w)
-            continue
-        if not isinstance(built, expr_types + (Field,)):
-            run.count("harness_built_object_not_deferred")
-            run.inconclusive_because("generator-produced-non-deferred-expression")
-            continue
         cn, compiler = compilers[0] if i % 4 < 2 else compilers[1 + (i % 2)]
-        try:
-            f = compiler(built)
-        except Exception as e:
-            run.case(key=key_of(dsrc))
-            run.violation("%s raised %s on a well-formed expression tree" % (cn, type(e).__name__),
-                          dict(base_w, error=str(e)[:200]))
+        f = build_and_compile(tree, dsrc, env, cn, compiler, base_w)
+        if f is None:
             continue
         run.count("p1_compiled_via_" + cn)
-        pcode = compile(psrc, "<c09-py>", "eval")
 
-        acc = new_acc()
-        features(tree, acc)
-        evaluated = 0
-        gave_value = False
+        # candidate inputs; eager reference FIRST (guard before the library is called)
+        cands = []
         for j in range(ninputs):
             raw, vals = make_input(rng)
             try:
@@ -775,46 +980,19 @@ def part1(run, rng, classes, ntrees, maxdepth, ninputs):
             if parsed != vals:
                 run.count("harness_parsed_differs_from_encoded")
                 run.inconclusive_because("operand-class-parsed-values-differ-from-encoded")
-            # eager reference FIRST (guard before the library is called)
-            try:
-                want = eager(tree, parsed)
-            except Skip as sk:
-                run.count("guard_skipped")
-                run.count("guard_skipped_" + str(sk))
-                continue
-            want2 = eager_from_source(pcode, parsed)
-            if not same_outcome(want, want2):
-                run.count("harness_oracle_self_disagreement")
-                run.inconclusive_because("oracle-walk-vs-python-source-disagree: %s" % psrc[:150])
-                continue
-            try:
-                if j % 2:
-                    got = ("val", f(pkt=pkt, raw=raw, offset=0, root=pkt))
-                else:
-                    got = ("val", f(pkt=pkt))
-            except Exception as e:
-                got = ("exc", type(e))
-            evaluated += 1
-            if want[0] == "val":
-                run.count("p1_values_compared")
-                gave_value = True
-                tn = type(want[1]).__name__
-                type_seen[tn] = type_seen.get(tn, 0) + 1
-            else:
-                run.count("p1_exceptions_compared")
-                en = want[1].__name__
-                exc_seen[en] = exc_seen.get(en, 0) + 1
-            if not same_outcome(want, got):
-                what = ("compiled expression and eager Python evaluation disagree (value/type)"
-                        if want[0] == got[0] == "val" else
-                        "compiled expression and eager Python evaluation disagree (exception behaviour)")
-                run.violation(what, dict(base_w, raw=raw, fields=parsed, compiled_with=cn,
-                                         expected=show(want), got=show(got)))
-                break
-            if samples < 4 and i % 1000 == 7:
-                run.sample({"part": "1", "expression": dsrc, "eager_python": psrc, "raw": raw,
-                            "fields": parsed, "result": show(got)})
-                samples += 1
+            cands.append((raw, parsed, pkt))
+        hist = eager_history(tree, psrc, cands, True)
+        # history order: inputs on which the expression raises come first, then the valid ones,
+        # then the first input once more (A.., B.., A): a callable must not remember earlier calls
+        hist.sort(key=lambda h: 0 if h[1][0] == "exc" else 1)
+        if len(hist) >= 2:
+            hist.append(hist[0])
+
+        acc = new_acc()
+        features(tree, acc)
+        evaluated, gave_value, ok = play_history(f, cn, hist, base_w, True, (samples < 4 and i % 1000 == 7, dsrc, psrc))
+        if evaluated and samples < 4 and i % 1000 == 7:
+            samples += 1
         if evaluated:
             run.case(key=key_of(dsrc), nontrivial=True, n=evaluated)
             dd = depth(tree)
@@ -836,6 +1014,47 @@ def part1(run, rng, classes, ntrees, maxdepth, ninputs):
                 run.count("p1_ite_evaluated")
         else:
             run.count("p1_trees_without_evaluation")
+            continue
+
+        # sibling trees: same shape, same field objects, exactly one constant changed (hash-equal
+        # where possible); compiled and evaluated in the same process right after the original
+        if not ok or rng.random() >= sibling_share:
+            continue
+        compiled_before = [dsrc]
+        for _ in range(1 if rng.random() < 0.6 else 2):
+            sib = make_sibling(rng, tree)
+            if sib is None:
+                run.count("p1_sibling_impossible_no_constant")
+                break
+            stree, heq, cold, cnew = sib
+            sdsrc, spsrc = render_def(stree), render_py(stree)
+            sw = {"part": "1", "operand_class": class_src(cname, copts), "expression": sdsrc,
+                  "eager_python": spsrc, "option_set": cname, "sibling_of": dsrc,
+                  "changed_constant": "%r -> %r (hash-equal: %s)" % (cold, cnew, heq),
+                  "compile_first": list(compiled_before)}
+            sf = build_and_compile(stree, sdsrc, env, cn, compiler, sw)
+            if sf is None:
+                break
+            compiled_before.append(sdsrc)
+            shist = eager_history(stree, spsrc, [h[0] for h in hist], False)
+            sev, _, sok = play_history(sf, cn, shist, sw, False, None)
+            if sev:
+                run.case(key=key_of(sdsrc), nontrivial=True, n=sev)
+                run.count("p1_sibling_pairs_compared")
+                differs = False
+                owant = {id(h[0]): h[1] for h in hist}
+                for c, w in shist:
+                    if not same_outcome(w, owant[id(c)]):
+                        differs = True
+                        break
+                if heq:
+                    run.count("p1_sibling_hash_equal_pairs_compared")
+                    if differs:
+                        run.count("p1_sibling_hash_equal_pairs_discriminating")
+                elif differs:
+                    run.count("p1_sibling_other_pairs_discriminating")
+            if not sok:
+                break
 
     for o in orders_seen:
         run.cover("binop_operand_shapes", o)
@@ -917,43 +1136,63 @@ def part1b(run, rng, classes, ninputs):
 # ------------------------------------------------------------------------------------------
 TAIL = 20
 PLACEMENTS = (
-    ("size", "    x = Data(%s)\n"),
-    ("count", "    x = Int(1).repeated(%s)\n"),
-    ("when", "    x = Int(1).when(%s)\n"),
-    ("rwhen", "    x = Int(1).repeated(2, when=%s)\n"),
+    ("size", "    %s = Data(%s)\n"),
+    ("count", "    %s = Int(1).repeated(%s)\n"),
+    ("when", "    %s = Int(1).when(%s)\n"),
+    ("rwhen", "    %s = Int(1).repeated(2, when=%s)\n"),
 )
 
 
-def judge_placement(run, place, cls, src, dsrc, psrc, raw, vals, want):
-    """Observe Packet.unpack of one class/input and compare with the eager value."""
+def observe_unpack(cls, raw):
+    """One real Packet.unpack: ('ok', pkt) | ('perr', PacketError) | ('raw', other exception)."""
     from bisturi.packet import PacketError
     try:
-        pkt = cls.unpack(raw)
-        out = ("ok", pkt.x)
-        parsed_from = pkt
+        return ("ok", cls.unpack(raw))
     except PacketError as e:
-        out = ("perr", e)
-        parsed_from = getattr(e, "packet", None)
+        return ("perr", e)
     except Exception as e:
-        out = ("raw", e)
-        parsed_from = None
-    if parsed_from is not None:
+        return ("raw", e)
+
+
+def judge_placement(run, place, attr, obs, want, w, vals):
+    """Compare what unpack did with field `attr` (x: the expression, y: its sibling placed after x in
+    the same class) with the eager outcome `want`.
+    Returns 'value' (judged, parsed fine), 'error' (judged, PacketError as demanded), 'unjudged', 'violation'."""
+    kind, payload = obs
+    holder = payload if kind == "ok" else getattr(payload, "packet", None)
+    if holder is not None:
         try:
-            parsed = {nm: getattr(parsed_from, nm) for nm in FIELD_NAMES}
+            parsed = {nm: getattr(holder, nm) for nm in FIELD_NAMES}
         except AttributeError:
             parsed = None
         if parsed != vals:
             run.count("harness_p2_operands_differ_from_encoded")
             run.inconclusive_because("part2-operand-values-differ-from-encoded")
-            return True
+            return "unjudged"
+    if kind == "ok":
+        out = ("ok", getattr(payload, attr))
+    elif kind == "raw":
+        if attr != "x":
+            return "unjudged"
+        out = ("raw", payload)
+    else:
+        try:
+            failing = payload.fields_stack[0][1]
+        except Exception:
+            failing = None
+        if attr == "x":
+            out = ("ok", getattr(holder, "x")) if (failing == "y" and holder is not None) else ("perr", payload)
+        else:
+            if failing != "y":
+                return "unjudged"       # x (or an operand) failed first: y was never reached
+            out = ("perr", payload)
 
     def bad(what):
         shown = repr(out[1])[:200] if out[0] == "ok" else "%s(%s)" % (
             type(out[1]).__name__, (getattr(out[1], "original_error_message", None) or str(out[1]))[:160])
-        run.violation(what, {"part": "2", "placement": place, "class_source": src, "expression": dsrc,
-                             "eager_python": psrc, "raw": raw, "fields": vals, "eager": show(want),
-                             "outcome": out[0], "got": shown})
-        return False
+        run.violation(what, dict(w, placement=place, attr=attr, fields=vals, eager=show(want),
+                                 outcome=out[0], got=shown))
+        return "violation"
 
     if out[0] == "raw":
         return bad("a raw %s escaped Packet.unpack instead of a PacketError" % type(out[1]).__name__)
@@ -962,22 +1201,22 @@ def judge_placement(run, place, cls, src, dsrc, psrc, raw, vals, want):
             return bad("the expression raises %s eagerly but the declaration parsed successfully" % want[1].__name__)
         run.count("p2_expr_exception_as_packeterror")
         run.cover("p2_expression_exceptions", want[1].__name__)
-        return True
+        return "error"
     V = want[1]
     if place in ("size", "count"):
         if not isinstance(V, int):
             run.count("p2_%s_noninteger_not_judged" % place)
-            return True
+            return "unjudged"
         if V > TAIL:
             run.count("p2_%s_beyond_input" % place)
             if out[0] == "ok" and len(out[1]) != V:
                 return bad("%s expression evaluates to %d but %d elements/bytes were taken" % (place, V, len(out[1])))
-            return True
+            return "unjudged"
         if place == "size" and V < 0:
             if out[0] != "perr":
                 return bad("negative Data size %d did not raise PacketError" % V)
             run.count("p2_size_negative_packeterror")
-            return True
+            return "error"
         expect_len = max(int(V), 0)
         if out[0] != "ok":
             return bad("%s expression evaluates eagerly to %d but unpack raised PacketError" % (place, V))
@@ -989,7 +1228,7 @@ def judge_placement(run, place, cls, src, dsrc, psrc, raw, vals, want):
             run.count("p2_count_checked")
             if V < 0:
                 run.count("p2_count_negative_empty_list")
-        return True
+        return "value"
     truthy = bool(V)
     if out[0] != "ok":
         return bad("when-condition evaluates eagerly to %r but unpack raised PacketError" % (V,))
@@ -998,10 +1237,15 @@ def judge_placement(run, place, cls, src, dsrc, psrc, raw, vals, want):
     if (truthy and not present) or (not truthy and not absent):
         return bad("when-condition evaluates eagerly to %r (truthy=%s) but the field is %r" % (V, truthy, out[1]))
     run.count("p2_when_present" if truthy else "p2_when_absent")
-    return True
+    return "value"
 
 
-def part2(run, rng, ntrees, maxdepth, ninputs, tag):
+def _fails_somewhere(want):
+    """Would at least one placement raise PacketError for this eager outcome?"""
+    return want[0] == "exc" or (isinstance(want[1], int) and want[1] < 0)
+
+
+def part2(run, rng, ntrees, maxdepth, ninputs, tag, sibling_share):
     from .. import common
     gen = Gen(rng, p_ill=0.03)
     scratch = common.scratch_dir("bvf_c09_")
@@ -1034,28 +1278,69 @@ def part2(run, rng, ntrees, maxdepth, ninputs, tag):
             else:
                 space = ns
             run.count("p2_defined_via_" + (mode if ns is not None else "exec"), len(PLACEMENTS))
-            evaluated = 0
+            sib = item["sib"]
+            # inputs and eager outcomes first (guard before the library is called)
+            plan = []
             for _ in range(ninputs):
                 raw0, vals = make_input(rng)
-                raw = raw0 + bytes(rng.randrange(256) for _ in range(TAIL))
+                raw = raw0 + bytes(rng.randrange(256) for _ in range(2 * TAIL))
                 try:
                     want = eager(item["tree"], vals)
+                    swant = eager(sib["tree"], vals) if sib else None
                 except Skip:
                     run.count("guard_skipped")
                     continue
-                ok = True
+                plan.append((raw, vals, want, swant))
+            # history: failing parses first, then valid ones, then the first input again
+            plan.sort(key=lambda q: 0 if _fails_somewhere(q[2]) else 1)
+            if len(plan) >= 2:
+                plan.append(plan[0])
+            failed_before = {}
+            before = []
+            evaluated = 0
+            ok = True
+            for raw, vals, want, swant in plan:
                 for p, _ in PLACEMENTS:
                     cls = space.get(item["names"][p])
                     if cls is None:
                         continue
                     run.count("p2_unpacks_observed")
-                    ok = judge_placement(run, p, cls, HEADER + item["src"][p], item["dsrc"], item["psrc"],
-                                         raw, vals, want) and ok
+                    obs = observe_unpack(cls, raw)
+                    w = {"part": "2", "class_source": HEADER + item["src"][p], "expression": item["dsrc"],
+                         "eager_python": item["psrc"], "raw": raw, "unpacked_before": list(before)}
+                    st = judge_placement(run, p, "x", obs, want, w, vals)
+                    if st == "value" and failed_before.get((p, "x")):
+                        run.count("p2_valid_parse_after_failing_parse")
+                    elif st == "error":
+                        failed_before[(p, "x")] = True
+                    elif st == "violation":
+                        ok = False
+                    if sib and st in ("value", "unjudged"):
+                        sw = dict(w, expression=sib["dsrc"], eager_python=sib["psrc"], sibling_of=item["dsrc"],
+                                  changed_constant=sib["changed"])
+                        st2 = judge_placement(run, p, "y", obs, swant, sw, vals)
+                        if st2 == "value" and failed_before.get((p, "y")):
+                            run.count("p2_valid_parse_after_failing_parse")
+                        elif st2 == "error":
+                            failed_before[(p, "y")] = True
+                        elif st2 == "violation":
+                            ok = False
+                        if st == "value" and st2 in ("value", "error"):
+                            run.count("p2_sibling_pairs_compared")
+                            differs = not same_outcome(want, swant)
+                            if sib["heq"]:
+                                run.count("p2_sibling_hash_equal_pairs_compared")
+                                if differs:
+                                    run.count("p2_sibling_hash_equal_pairs_discriminating")
+                            elif differs:
+                                run.count("p2_sibling_other_pairs_discriminating")
                 evaluated += 1
+                before.append(raw)
                 if not ok:
                     break
             if evaluated:
-                run.case(key="2:" + key_of(item["dsrc"]), nontrivial=True, n=evaluated * len(PLACEMENTS))
+                run.case(key="2:" + key_of(item["dsrc"] + ("|" + sib["dsrc"] if sib else "")), nontrivial=True,
+                         n=evaluated * len(PLACEMENTS))
         del batch[:]
 
     try:
@@ -1074,11 +1359,23 @@ def part2(run, rng, ntrees, maxdepth, ninputs, tag):
                 tree = ("b", "mod", tree, ("k", rng.choice((3, 5, 17))))
             elif r < 0.58:
                 tree = ("b", "sub", ("k", rng.choice((2, 8))), ("b", "and_", tree, ("k", 7)))
+            elif r < 0.70:
+                tree = ("b", "add", tree, ("k", rng.choice((-1, 0, 1))))
             dsrc, psrc = render_def(tree), render_py(tree)
+            sib = None
+            if rng.random() < sibling_share:
+                made = make_sibling(rng, tree)
+                if made is not None:
+                    stree, heq, cold, cnew = made
+                    sib = {"tree": stree, "dsrc": render_def(stree), "psrc": render_py(stree), "heq": heq,
+                           "changed": "%r -> %r (hash-equal: %s)" % (cold, cnew, heq)}
+                    run.count("p2_sibling_trees")
             oname, oopts = OPTION_SETS[i % len(OPTION_SETS)]
             names = {p: "P%s_%d_%s" % (tag, i, p) for p, _ in PLACEMENTS}
-            srcs = {p: class_src(names[p], oopts, tmpl % dsrc) for p, tmpl in PLACEMENTS}
-            batch.append({"tree": tree, "dsrc": dsrc, "psrc": psrc, "names": names, "src": srcs})
+            srcs = {p: class_src(names[p], oopts,
+                                 tmpl % ("x", dsrc) + (tmpl % ("y", sib["dsrc"]) if sib else ""))
+                    for p, tmpl in PLACEMENTS}
+            batch.append({"tree": tree, "dsrc": dsrc, "psrc": psrc, "names": names, "src": srcs, "sib": sib})
             run.count("p2_trees")
             run.cover("p2_option_sets", oname)
             if len(batch) >= 10:
@@ -1127,7 +1424,8 @@ def part2(run, rng, ntrees, maxdepth, ninputs, tag):
                     want = ("val", v)
                 run.case(key="2f:%s:%s:%r" % (place, nm, bool(v)), nontrivial=True)
                 run.count("p2_field_condition_checked")
-                if not judge_placement(run, place, cls, src, nm, nm, raw, vals, want):
+                w = {"part": "2f", "class_source": src, "class": cn, "expression": nm, "eager_python": nm, "raw": raw}
+                if judge_placement(run, place, "x", observe_unpack(cls, raw), want, w, vals) == "violation":
                     break
     finally:
         common.drop_scratch(scratch)
@@ -1149,14 +1447,14 @@ def run(run):
     try:
         classes = define_operand_classes(run, scratch)
         if quick:
-            ntrees, maxdepth, ninputs = 30000, 4, 2
+            ntrees, maxdepth, ninputs = 30000, 4, 3
             n2, d2 = 300, 3
         else:
-            ntrees, maxdepth, ninputs = 1000000 // max(nshards, 1), 6, 2
+            ntrees, maxdepth, ninputs = 1000000 // max(nshards, 1), 6, 3
             n2, d2 = 350, 4
-        part1(run, rng, classes, ntrees, maxdepth, ninputs)
+        part1(run, rng, classes, ntrees, maxdepth, ninputs, 0.3)
         part1b(run, rng_for(run.seed, "c09-1b", shard), classes, 150 if quick else 400)
-        part2(run, rng_for(run.seed, "c09-2", shard), n2, d2, 6, "s%d" % shard)
+        part2(run, rng_for(run.seed, "c09-2", shard), n2, d2, 6, "s%d" % shard, 0.5)
         run.extra["max_nesting_depth"] = maxdepth
     finally:
         common.drop_scratch(scratch)
@@ -1175,8 +1473,10 @@ def _unj(o):
 
 
 def replay(run, rec):
-    """Re-execute one recorded witness exactly: define the class from its source, unpack the
-    recorded bytes, evaluate the recorded expression and the recorded eager Python text."""
+    """Re-execute one recorded witness exactly: define the class from its source, compile the
+    expressions that were compiled before it (sibling pass), replay the earlier calls of the same
+    callable / class (history pass), then evaluate the recorded expression on the recorded bytes and
+    compare with the recorded eager Python text."""
     from .. import common
     import bisturi.deferred as bd
     w = _unj(rec["witness"])
@@ -1186,28 +1486,47 @@ def replay(run, rec):
         if part == "1":
             ns = define(HEADER + w["operand_class"], scratch, "file")
             cls = [v for k, v in ns.items() if k.startswith("Ops_")][0]
+            env = field_env(cls)
+            try:
+                for src in w.get("compile_first", []):
+                    bd.compile_expr_into_callable(eval(src, dict(env)))
+                f = bd.compile_expr_into_callable(eval(w["expression"], dict(env)))
+            except Exception as e:
+                f = None
+                got = ("exc", type(e))
+            for j, raw in enumerate(w.get("evaluated_before", [])):
+                p0 = cls.unpack(raw)
+                try:
+                    f(pkt=p0, raw=raw, offset=0, root=p0) if j % 2 else f(pkt=p0)
+                except Exception:
+                    pass
             pkt = cls.unpack(w["raw"])
             parsed = {nm: getattr(pkt, nm) for nm in FIELD_NAMES}
             want = eager_from_source(compile(w["eager_python"], "<py>", "eval"), parsed)
-            try:
-                built = eval(w["expression"], dict(field_env(cls)))
-                got = ("val", bd.compile_expr_into_callable(built)(pkt=pkt))
-            except Exception as e:
-                got = ("exc", type(e))
+            if f is not None:
+                try:
+                    got = ("val", f(pkt=pkt))
+                except Exception as e:
+                    got = ("exc", type(e))
             run.case(key=key_of(w["expression"]))
             run.count("replayed")
             if not same_outcome(want, got):
                 run.violation("compiled expression and eager Python evaluation disagree (replay)",
                               dict(w, expected=show(want), got=show(got)))
-        elif part == "2":
+        elif part in ("2", "2f"):
             ns = define(w["class_source"], scratch, "file")
-            cls = [v for k, v in ns.items() if k.startswith("P") and isinstance(v, type) and k != "Packet"][0]
+            if "class" in w:
+                cls = ns[w["class"]]
+            else:
+                cls = [v for k, v in ns.items() if k.startswith("P") and isinstance(v, type) and k != "Packet"][0]
+            for raw in w.get("unpacked_before", []):
+                observe_unpack(cls, raw)
             vals = w["fields"]
             want = eager_from_source(compile(w["eager_python"], "<py>", "eval"), vals)
             run.case(key=key_of(w["expression"]))
             run.count("replayed")
-            judge_placement(run, w["placement"], cls, w["class_source"], w["expression"], w["eager_python"],
-                            w["raw"], vals, want)
+            w2 = {k: v for k, v in w.items() if k not in ("placement", "attr", "fields", "eager", "outcome", "got")}
+            judge_placement(run, w["placement"], w.get("attr", "x"), observe_unpack(cls, w["raw"]), want, w2, vals)
         else:
             run.inconclusive_because("witness-part-not-replayable:%s" % part)
     finally:
